@@ -2,4 +2,6 @@ pub mod smoke;
 pub mod server;
 pub mod idmath;
 pub mod rt;
+pub mod codec;
+pub mod shapes;
 pub mod mostrecent;
